@@ -1060,6 +1060,9 @@ class LieTensor(Tensor):
     def __add__(self, other):
         return self.add(other=other)
 
+    def __iadd__(self, other):
+        return self.add_(other=other)
+
     def __mul__(self, other):
         r'''
         See :meth:`pypose.mul`
